@@ -1,6 +1,7 @@
 package props
 
 import (
+	"fmt"
 	"net/netip"
 	"net/url"
 	"strings"
@@ -176,8 +177,13 @@ func c17CheckRequest(c *core.Ctx, raw, src string) {
 		}
 	}
 	var r *rules.Request
-	if c.Guard("NewRequest", nil, c17Witness{URL: raw, Source: src}, func() { r = rules.NewRequest(raw, src, rules.TypeScript) }) {
+	// (the fields under test do not depend on the content type of the request)
+	rt := rules.RequestType(1) << c.Rng.Intn(12)
+	if c.Guard("NewRequest", nil, c17Witness{URL: raw, Source: src}, func() { r = rules.NewRequest(raw, src, rt) }) {
 		return
+	}
+	if rt == rules.TypeDocument && src != "" {
+		c.Event("document_requests_with_a_source", 1)
 	}
 	c.Eval(1)
 	bad := func(field, got, want string) {
@@ -205,12 +211,14 @@ func c17CheckRequest(c *core.Ctx, raw, src string) {
 		bad("SourceURL", r.SourceURL, capSrc)
 	case r.IsHostnameRequest:
 		bad("IsHostnameRequest", "true", "false")
+	case r.RequestType != rt:
+		bad("RequestType", fmt.Sprint(r.RequestType), fmt.Sprint(rt))
 	case filterutil.ExtractHostname(capURL) != wantHost:
 		bad("ExtractHostname", filterutil.ExtractHostname(capURL), wantHost)
 	}
 	if src != "" {
 		// Symmetry of third-party.
-		r2 := rules.NewRequest(src, raw, rules.TypeScript)
+		r2 := rules.NewRequest(src, raw, rules.RequestType(1)<<c.Rng.Intn(12))
 		c.Eval(1)
 		if r2.ThirdParty != r.ThirdParty {
 			bad("ThirdParty-symmetry", boolStr(r2.ThirdParty), boolStr(r.ThirdParty))
@@ -295,6 +303,7 @@ func init() {
 		Level: "exploration",
 		Rule: "systematic part: every hand-picked host (8 names around each of 40 public suffixes of every PSL class, the hostile vocabulary, IPv4, single labels) x 3 port forms x 19 paths x 11 queries x with/without fragment x 3 source situations; sampled part: per case 16 URL requests scheme://host[:port] followed by nothing, /path or ?query (paths and queries containing //, :, ?, @), optionally with #fragment (never directly after the host), no userinfo, hosts from every PSL class (ICANN multi-level, wildcard and exception rules, private suffixes, unlisted TLDs, IPv4, single labels) and the 58 k hosts of testdata/hosts, sometimes mixed-case or longer than 4 KiB, with an empty, same-site or foreign source URL; plus 8 NewRequestForHostname calls and the real URLs of testdata/requests.json; " +
 			"whole-list part: every one of the 9 105 rules of the Public Suffix List as compiled into x/net (suffix, 1..3 labels below, star and exception instances) as hostname and URL requests and as two sites asking each other; " +
+			"every request carries one of the twelve content types (document requests with a source included); " +
 			"oracle = net/url + publicsuffix.EffectiveTLDPlusOne, third-party symmetry under swapping; non-trivial = request whose registrable domain differs from its host or that is third-party; distinct by (url, source)",
 		Assumptions: []string{
 			"URLs that net/url rejects are outside the contract (counted inconclusive)",
